@@ -289,7 +289,28 @@ def run_one(m):
     return res
 
 
+def _guarded(m):
+    """run one mutant under a CPU-time and address-space limit: a mutant can make the interpreter loop or allocate without bound"""
+    import resource, signal
+    try:
+        resource.setrlimit(resource.RLIMIT_AS, (6 << 30, 6 << 30))
+    except Exception:
+        pass
+
+    def on_alarm(sig, frm):
+        raise TimeoutError("mutant analysis exceeded 300 s")
+    signal.signal(signal.SIGALRM, on_alarm)
+    signal.alarm(300)
+    try:
+        return run_one(m)
+    except (TimeoutError, MemoryError, RecursionError) as e:
+        return {"id": m["id"], "killed_by": [], "undecided_by": [], "crash_by": [["*", type(e).__name__, str(e)[:100]]], "status": "undecided"}
+    finally:
+        signal.alarm(0)
+
+
 def run(jobs=16, only=None):
+    import multiprocessing as mp
     muts = json.load(open(os.path.join(OUT, "mutants.json")))
     if only:
         muts = [m for m in muts if re.search(only, m["file"] + "::" + m["func"])]
@@ -299,12 +320,22 @@ def run(jobs=16, only=None):
         results = {int(k): v for k, v in json.load(open(rp)).items()}
     todo = [m for m in muts if m["id"] not in results]
     print("running", len(todo), "mutants")
-    with ProcessPoolExecutor(jobs) as ex:
-        for i, r in enumerate(ex.map(run_one, todo, chunksize=4)):
-            results[r["id"]] = r
-            if i % 200 == 0:
-                json.dump(results, open(rp, "w"))
-                print(i, flush=True)
+    while todo:
+        try:
+            with mp.Pool(jobs, maxtasksperchild=20) as pool:
+                for i, r in enumerate(pool.imap_unordered(_guarded, todo, chunksize=1)):
+                    results[r["id"]] = r
+                    if i % 100 == 0:
+                        json.dump(results, open(rp, "w"))
+                        print(len(results), flush=True)
+            break
+        except Exception as e:      # a worker died: keep what we have, go on with the rest
+            print("pool failure:", type(e).__name__, e, flush=True)
+            json.dump(results, open(rp, "w"))
+            todo = [m for m in muts if m["id"] not in results]
+            if todo:
+                bad = todo.pop(0)
+                results[bad["id"]] = {"id": bad["id"], "killed_by": [], "undecided_by": [], "crash_by": [["*", "worker-died", ""]], "status": "undecided"}
     json.dump(results, open(rp, "w"))
     from collections import Counter
     print(Counter(r["status"] for r in results.values()))
